@@ -296,6 +296,20 @@ impl KbucketRunner {
                     }
                 }
             }
+            // the pending node is discarded when the node it would have replaced (the head of the
+            // bucket) is reported connected first
+            if let (Some(pb), Some(k)) = (self.prev.get(i), op_key) {
+                let head_was = pb.nodes.first().map(|n| n.key == k).unwrap_or(false);
+                let now_conn = b.nodes.iter().find(|n| n.key == k).map(|n| n.conn).unwrap_or(false);
+                let status_op = op.starts_with("kstatus") || op.starts_with("kins") || op.starts_with("kupd");
+                if status_op && head_was && now_conn && pb.pending.is_some() {
+                    if let (Some(pp), Some(pn)) = (&pb.pending, &b.pending) {
+                        if pp.key == pn.key {
+                            out.push(format!("!MON C07 pending-kept-although-the-head-reconnected bucket={}", i));
+                        }
+                    }
+                }
+            }
             // pending promotion semantics
             if let Some(pb) = self.prev.get(i) {
                 if let Some(p) = &pb.pending {
@@ -819,6 +833,12 @@ pub fn gen_case(rng: &mut Rng, tier: &str, profile: &str, stats: &mut Stats) -> 
         }
         ops.push("ksleep 450".into());
         let other = ob as u64 + 1;
+        if rng.chance(1, 3) {
+            // (or a closest-nodes walk, which promotes the candidate while it runs)
+            let target: [u8; 32] = rng.bytes(32).try_into().unwrap();
+            ops.push(format!("kclosest {}", hx(&target)));
+            ops.push("kdump".into());
+        }
         let ds = match rng.below(3) { 0 => format!("{}", hb + 1), 1 => format!("{},{}", other, hb + 1), _ => format!("{},{}", hb + 1, other) };
         ops.push(format!("kbydist {} {}", ds, *rng.pick(&[16u64, 16, 40, 5])));
         ops.push("kdump".into());
@@ -915,6 +935,10 @@ pub fn gen_case(rng: &mut Rng, tier: &str, profile: &str, stats: &mut Stats) -> 
         ops.push(format!("kins {} v{}:0 c o", hx(&pk), base + 8 * 16));
         let mover = rng.range(5, 12);
         ops.push(format!("kupd {} v{}:0 -", hx(&members[mover as usize]), base + 8 * mover + 1));
+        if rng.chance(1, 2) {
+            // (the candidate's peer disconnects while it waits: the filter applies all the same)
+            ops.push(format!("kstatus {} d -", hx(&pk)));
+        }
         ops.push("kdump".into());
         ops.push("ksleep 450".into());
         ops.push(format!("kentry {}", hx(&pk)));
@@ -1021,7 +1045,8 @@ pub fn gen_case(rng: &mut Rng, tier: &str, profile: &str, stats: &mut Stats) -> 
                         ds.push(d.to_string());
                     }
                 }
-                let max_n = match rng.below(4) { 0 => 1, 1 => 16, 2 => 5, _ => rng.range(1, 40) };
+                // (the cap is the caller's: also absurdly large ones)
+                let max_n = match rng.below(16) { 0..=3 => 1, 4..=7 => 16, 8..=10 => 5, 11 => *rng.pick(&[u32::MAX as u64, 1u64 << 40, u64::MAX >> 1]), _ => rng.range(1, 40) };
                 ops.push(format!("kbydist {} {}", if ds.is_empty() { "-".into() } else { ds.join(",") }, max_n));
             }
             95..=96 => ops.push("ktake".into()),
